@@ -268,7 +268,7 @@ impl TryFromHeaderValue for i32 {
     type Error = ParseHeaderError;
 
     fn try_from_header_value(val: &HeaderValue) -> Result<Self, Self::Error> {
-        atoi::atoi(val.as_bytes()).ok_or(ParseHeaderError::Integer)
+        crate::utils::parser::parse_integer(val.as_bytes()).ok_or(ParseHeaderError::Integer)
     }
 }
 
@@ -276,7 +276,7 @@ impl TryFromHeaderValue for i64 {
     type Error = ParseHeaderError;
 
     fn try_from_header_value(val: &HeaderValue) -> Result<Self, Self::Error> {
-        atoi::atoi(val.as_bytes()).ok_or(ParseHeaderError::Long)
+        crate::utils::parser::parse_integer(val.as_bytes()).ok_or(ParseHeaderError::Long)
     }
 }
 
